@@ -19,7 +19,11 @@ RULE = ("relayloop: scripted header schedules (gaps, repeats, lower heads, heads
         "many broadcasts and LevelDB writes the loop under test performs per iteration), restarted and continued; one directed schedule "
         "and one random schedule in twelve have a SLOW log query on a range with events: the fake node holds the eth_getLogs answer back "
         "for 26 s (or until the loop visibly moves on without it) and then answers with the correct logs, or with an error, or answers an "
-        "error first and is slow on a retry if the loop retries; non-trivial = distinct schedule "
+        "error first and is slow on a retry if the loop retries; one schedule in three (and a directed one) mixes UNCONVERTIBLE but "
+        "emittable bridge events into ranges that hold good ones — same block before/after a good event, neighbouring block — with a "
+        "recipient whose bech32 checksum is wrong, an operator address, a truncated or empty recipient, or 'eth' from a non-null token "
+        "(`nonce!block` in the placement): the judge demands every GOOD confirmed event below the persisted cursor, an unconvertible "
+        "one may be skipped, never its neighbours; non-trivial = distinct schedule "
         "(every schedule has at least 4 header deliveries that reach the log query)")
 TRUSTED_BASE = [
     "Lean 4.33.0 kernel; axioms propext, Classical.choice, Quot.sound (audited per theorem on every run)",
